@@ -116,33 +116,64 @@ def translate_all(ctx, probes=()):
     return T, fails
 
 
+REFERENCE_KEYS = {
+    # translated table -> properties whose generators / oracles would otherwise be blind to a change of the generated file
+    "decode": ("C11", "C03", "C02"),
+    "operand_enum": ("C02", "C01", "C17"),
+    "asm_arms": ("C02", "C01"),
+    "parse_operand": ("C02", "C03", "C06", "C17"),
+    "disas_operand": ("C07", "C20"),
+}
+
+
 def reference_parse_operand(ctx, T):
-    """The Lean tables were emitted from the translation of `binary/autogen_parse_operand.rs` above, so model and code agree on it by
-    construction — and a generator/oracle fed with the same translation would be blind to a change *of that file* (an arm that reads
-    the right words into the wrong `Operand` variants, parameter rows of a mask in another order). The generators and oracles therefore
-    take the operand-kind table from the pinned snapshot of the generator's output for this grammar (reference/pinned-T.json, the
-    stand-in for the Khronos grammar, DESIGN §7); whether the translation still equals it is an obligation of C02/C03/C17."""
-    if "parse_operand" not in T:
-        return
-    ref = json.load(open(os.path.join(VERIF, "reference", "pinned-T.json")))["parse_operand"]
-    cur = json.loads(json.dumps(T["parse_operand"]))
-    diffs = []
-    for part, (a, b) in enumerate(zip(cur, ref)):
-        for k in sorted(set(a) | set(b)):
-            if a.get(k) != b.get(k):
-                diffs.append(f"{k}: {json.dumps(a.get(k))[:160]} (pinned: {json.dumps(b.get(k))[:160]})")
-    ctx.data["parse_operand_diffs"] = diffs
-    if diffs:
-        T["parse_operand"] = load_pinned_T()["parse_operand"]
+    """The Lean tables were emitted from the translation of the generated Rust files above, so model and code agree on them by
+    construction — and a generator/oracle fed with the same translation would be blind to a change *of such a file* (an arm that reads
+    the right words into the wrong `Operand` variants, parameter rows of a mask in another order, a decoder method reporting another
+    error kind). The generators and oracles therefore take these tables from the pinned snapshot of the generator's output for this
+    grammar (reference/pinned-T.json, the stand-in for the Khronos grammar, DESIGN §7); whether the translation still equals it is an
+    obligation of the properties listed in REFERENCE_KEYS."""
+    ref = json.load(open(os.path.join(VERIF, "reference", "pinned-T.json")))
+    pinned = None
+    out = {}
+    for key in REFERENCE_KEYS:
+        if key not in T:
+            continue
+        cur = json.loads(json.dumps(T[key]))
+        if cur == ref[key]:
+            out[key] = []
+            continue
+        diffs = []
+
+        def walk(a, b, path):
+            if len(diffs) >= 20:
+                return
+            if isinstance(a, dict) and isinstance(b, dict):
+                for k in sorted(set(a) | set(b), key=str):
+                    if a.get(k) != b.get(k):
+                        walk(a.get(k), b.get(k), path + [str(k)])
+            elif isinstance(a, list) and isinstance(b, list) and len(a) == len(b) and len(path) < 4:
+                for j, (x, y) in enumerate(zip(a, b)):
+                    if x != y:
+                        walk(x, y, path + [str(j)])
+            else:
+                diffs.append(f"{'/'.join(path)}: {json.dumps(a)[:160]} (pinned: {json.dumps(b)[:160]})")
+        walk(cur, ref[key], [key])
+        out[key] = diffs or [key + " differs"]
+        pinned = pinned or load_pinned_T()
+        T[key] = pinned[key]
+    ctx.data["reference_diffs"] = out
 
 
-def oblige_parse_operand(ctx):
-    """obligation + issue for `reference_parse_operand`; returns True when the translation equals the pinned table"""
-    diffs = ctx.data.get("parse_operand_diffs")
-    if diffs is None:
-        return True
-    ctx.oblige("reference: binary/autogen_parse_operand.rs assigns every operand kind the Operand variants, decoder calls and parameter rows (in order) of the pinned grammar", not diffs)
-    return not diffs
+def oblige_reference(ctx):
+    """obligations for `reference_parse_operand`; returns the diffs relevant to this property"""
+    out = ctx.data.get("reference_diffs") or {}
+    mine = []
+    for key, props in REFERENCE_KEYS.items():
+        if ctx.prop in props and key in out:
+            ctx.oblige(f"reference: the table translated from the generated file behind `{key}` equals the pinned snapshot for this grammar", not out[key])
+            mine += out[key]
+    return mine
 
 
 def translate_sources(ctx):
@@ -453,11 +484,10 @@ def load_known():
 def finish(ctx, level="proof", checker_cmd=None, rule="", trusted=None):
     known = [k for k in load_known() if k["property"] == ctx.prop and k.get("status") == "known"]
     known_keys = {k["key"]: k for k in known}
-    if ctx.prop in ("C02", "C03", "C06", "C17") and ctx.data.get("parse_operand_diffs") is not None:
-        diffs = ctx.data["parse_operand_diffs"]
-        if oblige_parse_operand(ctx) is False and not any(i.found_input and i.key not in known_keys for i in ctx.issues):
-            ctx.issue("reference:parse_operand", "binary/autogen_parse_operand.rs no longer assigns the operand kinds the variants / parameter rows of the pinned grammar: "
-                      + "; ".join(diffs[:3]), witness={"diffs": diffs[:20]})
+    refdiffs = oblige_reference(ctx)
+    if refdiffs and not any(i.found_input and i.key not in known_keys for i in ctx.issues):
+        ctx.issue("reference:tables", "a generated table no longer equals the pinned snapshot of the generator's output for this grammar: "
+                  + "; ".join(refdiffs[:3]), witness={"diffs": refdiffs[:20]})
     violations, known_hit = [], []
     for i in ctx.issues:
         if i.key in known_keys:
